@@ -196,20 +196,51 @@ def run(ctx):
             info = SchemaInfo(Schema({"nodes": {"doc": {"content": "para+"}, "para": {"content": "image* text*"},
                                                 "image": {"inline": True, "group": "inline"}, "text": {"group": "inline"}},
                                       "marks": {"em": {}}}), "random")
+        aimed_inline_containers = si > len(fam) and (si - len(fam)) % 5 == 3
+        if aimed_inline_containers:
+            # aimed: inline nodes *with content* whose allowed marks differ from their textblock's (no bundled schema has one)
+            info = schemas.inline_container_schema(rng)
+            ctx.count("aimed_inline_container_schemas")
         schema = info.schema
         val = validator(schema)
         ctx.driver.add_schema(info)
         ctx.count("schema:" + info.name)
-        docs = [gen.gen_doc(rng, schema, budget=rng.choice([6, 12, 25])) for _ in range(ctx.budget(6, 12))]
-        for d in docs:
-            p0 = val.problem(d.to_json())
+        docs = [gen.gen_doc(rng, schema, budget=rng.choice([6, 12, 25])) for _ in range(ctx.budget(6, 12) - (3 if aimed_inline_containers else 0))]
+        # documents built around inline nodes with content (where the schema has any), each with the ranges / marks of its case
+        ic_cases = {}
+        if gen.inline_containers(schema):
+            for _ in range(ctx.budget(3, 6) if aimed_inline_containers else 1):
+                case = gen.gen_inline_container_case(rng, schema)
+                if case is not None:
+                    ic_cases[id(case[0])] = case
+                    docs.append(case[0])
+        problems = {id(x): val.problem(x.to_json()) for x in docs}
+        for d_outer in docs:
+            p0 = problems[id(d_outer)]
             if p0:
                 ctx.notes.append(f"generator produced a document the spec validator rejects ({info.name}): {p0}")
                 continue
             for k in range(ctx.budget(18, 60)):
                 if ctx.time_left() < 0:
                     break
+                d = d_outer
                 step = gen.gen_step(rng, info, d, docs)
+                if k % 8 == 3:
+                    # aimed: a two-node slice open on both sides, the gap in a complete wrapper below the top level (on this
+                    # document, or on another one of this schema when this one has no sibling run with neighbours)
+                    for d2 in [d] + rng.sample(docs, min(3, len(docs))):
+                        st2 = gen.gen_two_sided_around(rng, info, d2) if problems[id(d2)] is None else None
+                        if st2 is not None:
+                            d, step = d2, st2
+                            ctx.count("aimed_two_sided_around_steps")
+                            break
+                if id(d) in ic_cases and k % 2 == 0:
+                    # aimed: a range mark step over / into / inside an inline node with content
+                    _, ic_ranges, ic_marks = ic_cases[id(d)]
+                    f_, t_ = rng.choice(ic_ranges)
+                    mk_ = ic_marks[0] if rng.random() < 0.4 else rng.choice(ic_marks)
+                    step = (AddMarkStep if rng.random() < 0.6 else RemoveMarkStep)(f_, t_, mk_)
+                    ctx.count("aimed_inline_container_mark_steps")
                 if aimed_inside_text and k % 2 == 0 and d.child_count:
                     i0 = rng.randrange(d.child_count)
                     a0 = sum(d.child(j).node_size for j in range(i0))
@@ -245,7 +276,7 @@ def run(ctx):
                 reqs.append({"op": "apply", "s": info.lean_id, "doc": info.node(d), "step": sj})
                 metas.append((replay, st, info.node(res) if st == "ok" else None))
             if ctx.time_left() > 0:
-                wf_stream(info, d, docs)
+                wf_stream(info, d_outer, docs)
         if len(wreqs) >= 8000:
             flush_wf()
     flush()
